@@ -191,6 +191,20 @@ func GenC16(seed uint64) *Plan {
 		if len(d.Table.Columns) > 1 {
 			keep := d.Table.Columns[:1+g.R.IntN(len(d.Table.Columns)-1)]
 			var defs []string
+			if g.chance(30) {
+				// ... or with every column already there (also the ones added
+				// automatically) and nothing else: no index yet
+				keep = d.Table.Columns
+				have := map[string]bool{}
+				for _, c := range keep {
+					have[c.Name] = true
+				}
+				for _, idc := range []string{"ig_name", "src_name", "block_num", "tx_idx", "log_idx", "abi_idx", "trace_action_idx"} {
+					if !have[idc] {
+						defs = append(defs, fmt.Sprintf("%q %s", idc, FieldType[idc]))
+					}
+				}
+			}
 			for _, c := range keep {
 				defs = append(defs, fmt.Sprintf("%q %s", c.Name, c.Type))
 			}
